@@ -41,6 +41,8 @@ type Hooks struct {
 	Setup    func(c *Cluster)
 }
 
+var hangSeen bool
+
 var journalFile *os.File
 
 func journal(v any) {
@@ -70,6 +72,17 @@ func journalReset() {
 // panics for failures and for its own control flow) out of it.
 func bubble(t *testing.T, f func()) {
 	var pv any
+	defer func() {
+		// a case that could not be shut down leaves goroutines behind; synctest reports that as a
+		// deadlock panic when the root goroutine exits. The hang itself is reported as a violation.
+		if r := recover(); r != nil {
+			if s := fmt.Sprint(r); hangSeen && strings.Contains(s, "blocked goroutines remain") {
+				hangSeen = false
+				return
+			}
+			panic(r)
+		}
+	}()
 	synctest.Test(t, func(*testing.T) {
 		defer func() { // must be the outermost deferred call
 			pv = recover()
@@ -227,6 +240,10 @@ func runInBubble(base string, p Profile, h Header, hooks Hooks, mk func(c *Clust
 	res.Final = c.Observe()
 	c.Shutdown()
 	res.Violations = c.rec.Finish()
+	if c.Hang != "" {
+		hangSeen = true
+		res.Violations = append(res.Violations, Violation{Property: "C18", Signature: "C18/stop-hangs", Msg: c.Hang})
+	}
 	res.History = c.rec.History()
 	res.Events = len(res.History)
 	res.Labels = c.Labels
